@@ -220,6 +220,16 @@ def numeric_disagreement(gen, ref, model, n_extra=32, seed=0, rel=1e-7, pc=()):
         if not (math.isfinite(gv) and math.isfinite(rv_)):
             continue
         if abs(gv - rv_) > rel * max(1.0, abs(gv), abs(rv_)):
+            # conditioning: a point where a 1e-11 relative perturbation of the inputs moves the reference by more
+            # than a tenth of the discrepancy says nothing in floating point (e.g. tan of a huge argument)
+            try:
+                env2 = {k: v * (1 + 1e-11) + 1e-13 for k, v in env.items()}
+                r2 = symx.evalf(r, env2)
+                g2 = symx.evalf(g, env2)
+                if abs(r2 - rv_) > 0.1 * abs(gv - rv_) or abs(g2 - gv) > 0.1 * abs(gv - rv_):
+                    continue
+            except (ZeroDivisionError, ValueError, OverflowError):
+                continue
             return env, gv, rv_
     return None
 
